@@ -283,12 +283,26 @@ func runSched(seed uint64, scale int, out string, _ string) *summary {
 	probe.Unlock()
 	schedules := 150 * scale
 	failures := 0
-	for sc := 0; sc < schedules && failures < 4; sc++ {
+	// scripted schedules run first.  (1) a spawner stays parked before its token CAS while the task it
+	// spawned inherits the lock, is told to reschedule, becomes a spawner itself and finishes; the
+	// second task then holds the lock when the first spawner finally fails its CAS: it must not unlock.
+	// (2) a second writer holds the lock between TryLock and its status re-check while the task of the
+	// first finds the lock taken and its token gone: the task must wait for the lock.
+	scripts := [][]string{
+		strings.Fields("NW S0 S0 S0 S0 S1 NW S1 S2 S2 S1 S1 S1 S1 S1 S3 S0 S3 S3 S3 S3"),
+		strings.Fields("NW S0 S0 NW S1 S1 S0 S0 S0 S1 S2 S1 S2 S2 S2"),
+	}
+	for sc := 0; sc < schedules+len(scripts) && failures < 4; sc++ {
 		sr := &rng{s: r.next()}
 		maxW := 1 + sr.intn(3)
 		maxC := sr.intn(3)
 		if sc%7 == 0 {
 			maxW, maxC = 2, 0
+		}
+		var fixed []string
+		if sc < len(scripts) {
+			fixed = scripts[sc]
+			maxW, maxC = 9, 9
 		}
 		ctl := &schedCtl{byGoid: map[int64]*schedThread{}, ev: make(chan schedEvent, 1024)}
 		otter.VerifHook = ctl.hook
@@ -345,30 +359,50 @@ func runSched(seed uint64, scale int, out string, _ string) *summary {
 			sum.Ops++
 			// choose
 			choice := ""
-			nopt := len(parked)
-			if canW {
-				nopt++
-			}
-			if canC {
-				nopt++
-			}
 			pickThread := -1
-			if sticky >= 0 && sr.chance(60) {
-				for _, p := range parked {
-					if p == sticky {
-						pickThread = p
+			if len(fixed) > 0 {
+				// scripted step; a step that is not possible ends the script (the rest is random)
+				tok := fixed[0]
+				fixed = fixed[1:]
+				if tok == "NW" || tok == "NC" {
+					choice = tok[1:]
+				} else if n, err := strconv.Atoi(tok[1:]); err == nil {
+					for _, p := range parked {
+						if p == n {
+							pickThread = n
+						}
 					}
 				}
+				if choice == "" && pickThread < 0 {
+					fixed = nil
+					sum.Dist["script_abandoned"]++
+				}
 			}
-			if pickThread < 0 {
-				x := sr.intn(nopt)
-				switch {
-				case x < len(parked):
-					pickThread = parked[x]
-				case canW && x == len(parked):
-					choice = "W"
-				default:
-					choice = "C"
+			if choice == "" && pickThread < 0 {
+				nopt := len(parked)
+				if canW {
+					nopt++
+				}
+				if canC {
+					nopt++
+				}
+				if sticky >= 0 && sr.chance(60) {
+					for _, p := range parked {
+						if p == sticky {
+							pickThread = p
+						}
+					}
+				}
+				if pickThread < 0 {
+					x := sr.intn(nopt)
+					switch {
+					case x < len(parked):
+						pickThread = parked[x]
+					case canW && x == len(parked):
+						choice = "W"
+					default:
+						choice = "C"
+					}
 				}
 			}
 			if pickThread >= 0 {
